@@ -118,21 +118,28 @@ example (f : S_devicefinder_Default) : Default_authenticate f none (some ⟨none
 
 /-! ## `deviceData`: which channel is read on which transport -/
 
-/-- Plain DNS (any transport that is not "standard encrypted"): the identifier is the EDNS one and
-nothing else — never an extended human ID, and nothing of the server request info (URL, userinfo,
-TLS server name) has any influence. -/
-theorem deviceData_plain_only_edns (f : S_devicefinder_Default) (ri ri' : Option S_dnsserver_RequestInfo)
-    (sri sri' : String × Option S_devicefinder_extHumanID × Option String) (edns : String × Option String) :
-    Default_deviceData f ri false sri edns = (edns.1, none, edns.2) ∧
-    Default_deviceData f ri false sri edns = Default_deviceData f ri' false sri' edns := by
-  simp [Default_deviceData]
+/-- Plain DNS (any transport that is not DoH/DoQ/DoT): the identifier is the EDNS one and nothing
+else — never an extended human ID, and nothing of the server request info (URL, userinfo, TLS server
+name) has any influence.  (Arguments are passed by name: their order follows the source.) -/
+theorem deviceData_plain_only_edns (f : S_devicefinder_Default) (srv : S_agd_Server) (ri : Option S_dnsserver_RequestInfo)
+    (sri : Option S_dnsserver_RequestInfo → String × Option S_devicefinder_extHumanID × Option String)
+    (edns : String × Option String) (hsrv : f.srv = some srv)
+    (hp : ¬ (srv.Protocol = 3 ∨ srv.Protocol = 4 ∨ srv.Protocol = 5)) :
+    Default_deviceData f ri (f_deviceDataFromSrvReqInfo := sri) (f_deviceIDFromEDNS := edns) =
+      some (edns.1, none, edns.2) := by
+  have h : Protocol_IsStdEncrypted srv.Protocol = false := by
+    simp only [Protocol_IsStdEncrypted]; simp; omega
+  simp [Default_deviceData, hsrv, h]
 
-/-- Encrypted transports: the data are those of the server request info; the EDNS option is ignored. -/
-theorem deviceData_encrypted_ignores_edns (f : S_devicefinder_Default) (ri : Option S_dnsserver_RequestInfo)
-    (sri : String × Option S_devicefinder_extHumanID × Option String) (edns edns' : String × Option String) :
-    Default_deviceData f ri true sri edns = sri ∧
-    Default_deviceData f ri true sri edns = Default_deviceData f ri true sri edns' := by
-  simp [Default_deviceData]
+/-- DoH / DoQ / DoT: the data are those of the server request info; the EDNS option is ignored. -/
+theorem deviceData_encrypted_ignores_edns (f : S_devicefinder_Default) (srv : S_agd_Server) (ri : Option S_dnsserver_RequestInfo)
+    (sri : Option S_dnsserver_RequestInfo → String × Option S_devicefinder_extHumanID × Option String)
+    (edns : String × Option String) (hsrv : f.srv = some srv)
+    (hp : srv.Protocol = 3 ∨ srv.Protocol = 4 ∨ srv.Protocol = 5) :
+    Default_deviceData f ri (f_deviceDataFromSrvReqInfo := sri) (f_deviceIDFromEDNS := edns) = some (sri ri) := by
+  have h : Protocol_IsStdEncrypted srv.Protocol = true := by
+    simp only [Protocol_IsStdEncrypted]; simp; omega
+  simp [Default_deviceData, hsrv, h]
 
 abbrev DD := String × Option S_devicefinder_extHumanID × Option String
 
@@ -433,7 +440,8 @@ play no role. -/
 theorem deviceFromDB_by_id (f : S_devicefinder_Default) (id : String) (x : Option S_devicefinder_extHumanID)
     (byID : String → PD) (ndr : Option S_agd_Profile → Option S_agd_Device → String → Option String → AbsPtr)
     (byExt : Option S_devicefinder_extHumanID → PD) (addrs : AbsPtr) (h : id ≠ "") :
-    Default_deviceFromDB f id x byID ndr byExt addrs =
+    Default_deviceFromDB f id x (f_ProfileByDeviceID := byID) (f_newDeviceResult := ndr)
+        (f_deviceByExtID := byExt) (f_deviceByAddrs := addrs) =
       some (ndr (byID id).1 (byID id).2.1 "device id" (byID id).2.2,
             [("ProfileByDeviceID", ["_", id]), ("newDeviceResult", ["_", "_", "_", "device id", "_"])]) := by
   simp [Default_deviceFromDB, h]
@@ -442,7 +450,8 @@ theorem deviceFromDB_by_id (f : S_devicefinder_Default) (id : String) (x : Optio
 theorem deviceFromDB_by_ext (f : S_devicefinder_Default) (x : S_devicefinder_extHumanID)
     (byID : String → PD) (ndr : Option S_agd_Profile → Option S_agd_Device → String → Option String → AbsPtr)
     (byExt : Option S_devicefinder_extHumanID → PD) (addrs : AbsPtr) :
-    Default_deviceFromDB f "" (some x) byID ndr byExt addrs =
+    Default_deviceFromDB f "" (some x) (f_ProfileByDeviceID := byID) (f_newDeviceResult := ndr)
+        (f_deviceByExtID := byExt) (f_deviceByAddrs := addrs) =
       some (ndr (byExt (some x)).1 (byExt (some x)).2.1 "human id" (byExt (some x)).2.2,
             [("deviceByExtID", ["_", "_"]), ("newDeviceResult", ["_", "_", "_", "human id", "_"])]) := by
   simp [Default_deviceFromDB]
@@ -452,7 +461,8 @@ other transport the result is nil and *nothing* is looked up. -/
 theorem deviceFromDB_no_id (f : S_devicefinder_Default) (srv : S_agd_Server)
     (byID : String → PD) (ndr : Option S_agd_Profile → Option S_agd_Device → String → Option String → AbsPtr)
     (byExt : Option S_devicefinder_extHumanID → PD) (addrs : AbsPtr) (hsrv : f.srv = some srv) :
-    Default_deviceFromDB f "" none byID ndr byExt addrs =
+    Default_deviceFromDB f "" none (f_ProfileByDeviceID := byID) (f_newDeviceResult := ndr)
+        (f_deviceByExtID := byExt) (f_deviceByAddrs := addrs) =
       some (if srv.Protocol = 8 then (addrs, [("deviceByAddrs", ["_", "_", "_"])]) else (false, [])) := by
   by_cases hp : srv.Protocol = 8 <;> simp [Default_deviceFromDB, hsrv, hp]
 
